@@ -50,3 +50,39 @@ PROPS["C04"] = dict(
                  "start bindings are acyclic"],
     explanation="gomini.EqualO is modelled as the verified unification algorithm on the injective term encoding of Go values; tie: differential execution through the exported gomini API under both placeholder policies",
 )
+
+PROPS["C18"] = dict(
+    model="Reflect.v",
+    harness=[dict(name="main", n_quick=2000, n_thorough=4000, shards_quick=1, shards_thorough=8)],
+    trusted=["Go values of the harness's type family are encoded as the model's gval by a type switch (no reflect); Go map iteration order is random: map laws are stated up to permutation",
+             "package reflect itself (ValueOf/Kind/Elem/Field/Index/MapKeys/Set/MakeSlice/MakeMap semantics) is modelled, not verified"],
+    assumptions=["exported fields only; pointers to interfaces excluded; types are not modelled (Set on a non-assignable value is outside the model)"],
+    explanation="case-by-case model of reflecttools.Map/Any/ZipReduce with call logs; structural laws proved over the model; tie by differential execution with call-logging functions and freshness/no-mutation oracles",
+)
+
+PROPS["C05"] = dict(
+    model="AddrHeap.v",
+    harness=[dict(name="main", n_quick=40, n_thorough=200, shards_quick=1, shards_thorough=4, coq=False, timeout=1500)],
+    trusted=_GOMINI_TRUSTED + ["what the real Go collector and allocator do is runtime behaviour: the theorem covers every collector that frees only unreachable objects and every allocator that returns only non-live addresses",
+                              "the model's one abstraction ('the placeholder is reachable from a state that lists it') is probed on the real code with runtime.SetFinalizer, forced runtime.GC and debug.SetGCPercent sweeps"],
+    assumptions=["Go's GC never frees a reachable object and never moves heap objects (true of the current runtime)"],
+    explanation="invariant proof over an address/GC/allocator LTS for every interleaving; refutation witness for the numbers-only representation; finalizer / misclassification / answer-multiset probes on the real code",
+)
+
+import gens
+PROPS["C08"] = dict(
+    model="Reify.v",
+    harness=[dict(name="main", n_quick=1500, n_thorough=2500, shards_quick=1, shards_thorough=8)],
+    trusted=_PROG_TRUSTED + _GOMINI_TRUSTED,
+    assumptions=["reified names are the ordinary symbols _k (a user symbol _k is indistinguishable from a reified variable)"],
+    explanation="model of reifyS/ReifyIntVarFromState/MKReify/Run with first-occurrence renaming theorems; gomini.Run results checked for dynamic type, resolvedness against the reference unifier, caller terms unmodified",
+)
+for _pid, _unit in (("C13", "mini"), ("C19", "peano")):
+    PROPS[_pid] = dict(
+        model="gen/Rel*.v (regenerated) + Stream.v",
+        gens=[gens.gen_rels],
+        harness=[dict(name="main", n_quick=400, n_thorough=1200, shards_quick=1, shards_thorough=10, timeout=1500, coq_timeout=1500)],
+        trusted=_PROG_TRUSTED + ["the translator harness/cmd/genrels (Go relation DSL -> goal AST); a wrong translation would also show in the correspondence, since the REAL relations are run against the translated bodies"],
+        assumptions=_PROG_ASSUME + ["MapOUnrolled draws its variables from ast.NewVariable (random 64-bit index): modelled as fresh variables, distinctness assumed"],
+        explanation="denotation theorems about the relation bodies regenerated from the Go source on every run; cell traces of the real relations in every argument mode against the translated bodies; list/arithmetic oracles",
+    )
